@@ -11,3 +11,7 @@ open Neutrino.Lru
 #print axioms Neutrino.LockObj.lock_serializes
 #print axioms Neutrino.LockObj.holder_sees_own_effects
 #print axioms C16_oracle_sound
+#print axioms C16_no_overflow
+#print axioms C16_evict_condition
+#print axioms C16_evict_condition_counterexample
+#print axioms C16_dump_shape
